@@ -827,19 +827,26 @@ class Network:
         )
         self.peer_connections.append(connection)
 
-        await connection.connect()
-        await connection.send_message(
-            PeerInit.Request(
-                self._settings.credentials.username,
-                typ,
-                ticket
+        try:
+            await connection.connect()
+            await connection.send_message(
+                PeerInit.Request(
+                    self._settings.credentials.username,
+                    typ,
+                    ticket
+                )
             )
-        )
 
-        self._finalize_peer_connection(connection)
+            self._finalize_peer_connection(connection)
 
-        await self._event_bus.emit(
-            PeerInitializedEvent(connection, requested=True))
+            await self._event_bus.emit(
+                PeerInitializedEvent(connection, requested=True))
+
+        except BaseException:
+            # Failed or cancelled (for example: lost the race against the
+            # indirect connection), don't leave the connection behind
+            await connection.disconnect(CloseReason.REQUESTED)
+            raise
 
         return connection
 
@@ -921,24 +928,30 @@ class Network:
         self.peer_connections.append(peer_connection)
 
         try:
-            await peer_connection.connect()
-            await peer_connection.send_message(
-                PeerPierceFirewall.Request(message.ticket)
-            )
-
-        except NetworkError:
-            await self.server_connection.send_message(
-                CannotConnect.Request(
-                    ticket=message.ticket,
-                    username=message.username
+            try:
+                await peer_connection.connect()
+                await peer_connection.send_message(
+                    PeerPierceFirewall.Request(message.ticket)
                 )
-            )
-            raise PeerConnectionError("failed connect on user request")
 
-        self._finalize_peer_connection(peer_connection)
+            except NetworkError:
+                await self.server_connection.send_message(
+                    CannotConnect.Request(
+                        ticket=message.ticket,
+                        username=message.username
+                    )
+                )
+                raise PeerConnectionError("failed connect on user request")
 
-        await self._event_bus.emit(
-            PeerInitializedEvent(peer_connection, requested=False))
+            self._finalize_peer_connection(peer_connection)
+
+            await self._event_bus.emit(
+                PeerInitializedEvent(peer_connection, requested=False))
+
+        except BaseException:
+            # Failed or cancelled, don't leave the connection behind
+            await peer_connection.disconnect(CloseReason.REQUESTED)
+            raise
 
     def _finalize_peer_connection(self, connection: PeerConnection):
         if connection.connection_type == PeerConnectionType.FILE:
@@ -1092,59 +1105,65 @@ class Network:
         self.peer_connections.append(connection)
 
         try:
-            peer_init_message = await connection.receive_message_object()
-            if not peer_init_message:
-                # EOF reached before receiving a message. Connection should've
-                # been automatically closed
-                return
-        except ConnectionReadError:
-            # Some read error. Connection should've been automatically closed
-            return
-        except MessageDeserializationError:
-            # Couldn't deserialize the first message. Assume something is broken
-            # and disconnect
-            await connection.disconnect(CloseReason.READ_ERROR)
-            return
-
-        if isinstance(peer_init_message, PeerInit.Request):
-            connection.username = peer_init_message.username
-            connection.connection_type = peer_init_message.typ
-            self._finalize_peer_connection(connection)
-
-            await self._event_bus.emit(
-                PeerInitializedEvent(connection, requested=False))
-
-        elif isinstance(peer_init_message, PeerPierceFirewall.Request):
-            ticket = peer_init_message.ticket
             try:
-                connection_future = self._expected_connection_futures[ticket]
-            except KeyError:
-                logger.warning(
-                    "%s:%d : unknown pierce firewall ticket : %d",
-                    connection.hostname, connection.port, ticket
-                )
-                await connection.disconnect(CloseReason.REQUESTED)
-            else:
-                connection.username = connection_future.username
-                connection.connection_type = connection_future.typ
+                peer_init_message = await connection.receive_message_object()
+                if not peer_init_message:
+                    # EOF reached before receiving a message. Connection should've
+                    # been automatically closed
+                    return
+            except ConnectionReadError:
+                # Some read error. Connection should've been automatically closed
+                return
+            except MessageDeserializationError:
+                # Couldn't deserialize the first message. Assume something is broken
+                # and disconnect
+                await connection.disconnect(CloseReason.READ_ERROR)
+                return
+
+            if isinstance(peer_init_message, PeerInit.Request):
+                connection.username = peer_init_message.username
+                connection.connection_type = peer_init_message.typ
                 self._finalize_peer_connection(connection)
 
                 await self._event_bus.emit(
-                    PeerInitializedEvent(connection, requested=True))
+                    PeerInitializedEvent(connection, requested=False))
 
-                # The request could have timed out or have been cancelled in
-                # the meantime, nobody is waiting for the connection anymore
-                if connection_future.done():
+            elif isinstance(peer_init_message, PeerPierceFirewall.Request):
+                ticket = peer_init_message.ticket
+                try:
+                    connection_future = self._expected_connection_futures[ticket]
+                except KeyError:
+                    logger.warning(
+                        "%s:%d : unknown pierce firewall ticket : %d",
+                        connection.hostname, connection.port, ticket
+                    )
                     await connection.disconnect(CloseReason.REQUESTED)
                 else:
-                    connection_future.set_result(connection)
+                    connection.username = connection_future.username
+                    connection.connection_type = connection_future.typ
+                    self._finalize_peer_connection(connection)
 
-        else:
-            logger.warning(
-                "%s:%d : unknown peer init message : %s",
-                connection.hostname, connection.port, peer_init_message
-            )
+                    await self._event_bus.emit(
+                        PeerInitializedEvent(connection, requested=True))
+
+                    # The request could have timed out or have been cancelled in
+                    # the meantime, nobody is waiting for the connection anymore
+                    if connection_future.done():
+                        await connection.disconnect(CloseReason.REQUESTED)
+                    else:
+                        connection_future.set_result(connection)
+
+            else:
+                logger.warning(
+                    "%s:%d : unknown peer init message : %s",
+                    connection.hostname, connection.port, peer_init_message
+                )
+                await connection.disconnect(CloseReason.REQUESTED)
+
+        except BaseException:
+            # Failed or cancelled, don't leave the connection behind
             await connection.disconnect(CloseReason.REQUESTED)
+            raise
 
     async def on_message_received(self, message: MessageDataclass, connection: DataConnection):
         """Method called by ``connection`` instances when a message is received
